@@ -57,6 +57,7 @@ def run(ctx):
                 # limit is not part of the compared behaviour
                 p.pop("maxtime", None)
                 p.pop("clockq", None)
+                p.pop("clock0", None)
                 n = p["n"]
                 items, j = [], 0
                 for _ in range(rng.choice([1, 1, 2])):
